@@ -33,8 +33,11 @@ def spec(tier, seed):
             inst.append(S("c03", 3, sh, [None, None], f, d, ["recon"], "C03 two hunks, symbolic stated lines", mem_gb=12, timeout=2400))
         for (n, sh, ls, f, d) in conc:
             inst.append(S("c03", n, sh, ls, f, d, ["recon"], "C03 two hunks, stated lines from the matrix", mem_gb=9 if f == 0 else 15, timeout=2400))
+    from . import _mir
     return {
         "instances": inst,
+        "mir_vcs": [{"name": "apply_modify: offset and frozen line handed from one hunk to the next", "function": "apply_modify", "target": "lib",
+                     "run": lambda f, v, w: _mir.vc_apply_bookkeeping(f, v, w)}],
         "level": "model_checking",
         "functions": ["TextFilePatch::apply", "apply_internal", "apply_modify (match phase, last_frozen_line, modification_offset, splice loop)",
                       "try_apply_hunk", "HunkView::*", "FilePatchApplyReport::*"],
@@ -50,3 +53,8 @@ def spec(tier, seed):
         "outside": ["more than two hunks; files longer than 4 lines", "on-disk result (save_modified_file is I/O)"],
         "explanation": "bounded model checking of the real apply_modify against a changed-regions-only reconstruction from the hunk reports",
     }
+
+
+def replay_candidate(v, work, log):
+    from .. import replay
+    return replay.replay_by_sweep("C03", v, work, log)
